@@ -152,7 +152,7 @@ Lemma nsga3_full_unfold log pop k refs mem pext draws o :
     f_d2 o = assoc_d2 np_eps (map qz fits) refs (qz (f_best o)) (f_icpt o) (f_niches o) /\
     f_core o = nsga3_core q_ltb 0%Q (f_fronts o) k (length refs) (f_niches o) (f_d2 o) draws.
 Proof.
-  unfold nsga3_full. destruct (sort_fronts log pop k) as [fs|]; [|discriminate].
+  unfold nsga3_full, nsga3_full_gen. destruct (sort_fronts log pop k) as [fs|]; [|discriminate].
   destruct (find_intercepts_b _ _ _ _) as [br icpt] eqn:E. intro H. inversion H; subst o. clear H.
   exists fs. split; [reflexivity|]. cbn [f_fronts f_best f_worst f_ext f_branch f_icpt f_niches f_d2 f_core].
   repeat split. symmetry. exact E.
@@ -173,7 +173,7 @@ Proof.
   intros OK Hr Hk.
   destruct (sort_fronts_leading log pop k OK Hk) as [fs [j [E [Hj [P [Hlt [Hge [ND Hin]]]]]]]].
   destruct (leading_fronts_core pop k fs j ltac:(lia) Hj P Hlt Hge ND) as [NE [NDc [Hkk PR]]].
-  unfold nsga3_full. rewrite E.
+  unfold nsga3_full, nsga3_full_gen. rewrite E.
   destruct (find_intercepts_b _ _ _ _) as [br icpt].
   eexists. exists fs, j. split; [reflexivity|]. cbn [f_fronts f_niches].
   split; [reflexivity|]. split; [exact Hj|]. split; [exact P|]. split; [exact PR|]. split; [exact Hin|].
